@@ -194,6 +194,24 @@ def doInstall (s : HSt) (hdr obs : List String) : HSt := Id.run do
   let before := s.ms
   match obs.head? with
   | some "ok" =>
+    -- ---- property predicates on the implementation's own observations (independent of what
+    -- the model predicts): guard as reported, entry bytes, trampoline bytes, OS-call log
+    let gobs := ((kv obs "g").getD "").splitOn ":"
+    let ojit := (gobs[2]? >>= parseHex).getD 0
+    let oplen := (gobs[1]? >>= String.toNat?).getD 0
+    let tr := ((kv obs "tr").bind parseBytes).getD []
+    let slot := ((kv obs "sl").bind parseSlots).getD [] |>.getD ti []
+    -- C01: the entry bytes, followed through the trampoline, reach the fake
+    if kind != "b" then
+      if followImpl tgt.addr slot ojit tr != some a then s := s.fail "c01.follow"
+    else
+      if (X86.follow tgt.addr slot 0).map (·.1) != some ojit then s := s.fail "c01.follow"
+    -- C17: both written ranges flushed with their final content
+    if !flushCovers evs ojit (tr.take (if kind = "b" then 8 else (if tr.take 1 == [0xE9] then 5 else 12))) then s := s.fail "c17.tramp-flush"
+    if !flushCovers evs tgt.addr (slot.take oplen) then s := s.fail "c17.entry-flush"
+    -- C12: every munmap targets something the library mapped itself
+    if evs.any (fun e => match e with | Ev.U _ _ o => !o | _ => false) then s := s.fail "c12.foreign-munmap"
+    if foreignUnmapHitsCode s.arenas evs then s := s.fail "c03.unmapped-foreign-code"
     -- allocator: oracle answers = what the kernel returned
     let answers : List (Option Nat) := evs.filterMap fun e => match e with | Ev.M _ _ r => some r | _ => none
     let (ares, aevs) := Alloc.search tgt.addr Generated.Consts.linuxMaxRange 4096 payload.jitSize answers
@@ -210,23 +228,10 @@ def doInstall (s : HSt) (hdr obs : List String) : HSt := Id.run do
         let g := ms'.guards.getLast?.getD { addr := 0, saved := [], patchLen := 0, jit := 0, jitLen := 0 }
         let gs := hex g.addr ++ ":" ++ toString g.patchLen ++ ":" ++ hex g.jit ++ ":" ++ toString g.jitLen ++ ":" ++ hexBytes g.saved
         if kv obs "g" != some gs then s := s.disagree ("install:guard model=" ++ gs)
-        let tr := ((kv obs "tr").bind parseBytes).getD []
         if tr != readMem ms'.mem jit g.jitLen then s := s.disagree "install:tramp"
         if g.patchLen == 12 then s := s.tag "long-entry"
         if kind != "b" && tr.take 2 == [0x48, 0xB8] then s := s.tag "long-tramp"
         if kv obs "live" != some (toString ms'.maps.length) then s := s.fail "c12.live-count"
-        -- C01 on the implementation's bytes
-        let slot := ((kv obs "sl").bind parseSlots).getD [] |>.getD ti []
-        if kind != "b" then
-          if followImpl tgt.addr slot jit tr != some a then s := s.fail "c01.follow"
-        else
-          if (X86.follow tgt.addr slot 0).map (·.1) != some jit then s := s.fail "c01.follow"
-        -- C17: both written ranges flushed with their final content
-        if !flushCovers evs jit (tr.take (if kind = "b" then 8 else (if tr.take 1 == [0xE9] then 5 else 12))) then s := s.fail "c17.tramp-flush"
-        if !flushCovers evs tgt.addr (slot.take g.patchLen) then s := s.fail "c17.entry-flush"
-        -- C12: every munmap targets something the library mapped itself
-        if evs.any (fun e => match e with | Ev.U _ _ o => !o | _ => false) then s := s.fail "c12.foreign-munmap"
-        if foreignUnmapHitsCode s.arenas evs then s := s.fail "c03.unmapped-foreign-code"
         s := checkAfter s obs "install"
       | none => s := s.disagree "install:model-panics"
     | _ => s := s.disagree "install:alloc-model"
